@@ -87,7 +87,9 @@ def gen_case(rnd, depth):
 NEG = [("unknown", "k2*A + zz_unknown"), ("unknown", "A*B/(1+mystery)"), ("sympy-name", "beta*A"), ("sympy-name", "gamma*A + B"),
        ("sympy-name", "zeta*B"), ("sympy-name", "lambda*A"), ("function", "sin(A)"), ("function", "k2*tanh(B)"), ("function", "cos(A)+1"),
        ("function", "sqrt(A) + floor(B)"), ("relation", "A > B"), ("relation", "k2*(A >= 2)"), ("function", "erf(A)"), ("function", "sign(A)*B"),
-       ("function", "factorial(A)"), ("syntax", "A +* B"), ("syntax", "k2*(A"), ("function", "Piecewise((A, A>1), (B, True))")]
+       ("function", "factorial(A)"), ("syntax", "A +* B"), ("syntax", "k2*(A"), ("function", "Piecewise((A, A>1), (B, True))"),
+       # single letters that symbolic algebra reads as constants when nobody has declared them
+       ("single-letter", "E*A + k2"), ("single-letter", "I^2*A + B"), ("single-letter", "k2*A + S*N"), ("single-letter", "O*Q + B"), ("single-letter", "A^E")]
 
 
 def generate(tier, seed):
@@ -202,6 +204,17 @@ def run_case(case):
     except Exception as e:
         C["rejected_valid_in_model"] += 1
         M = None
+    # the rule is created BEFORE the parameters it mentions are declared (incremental model building): the names still mean
+    # the parameters declared afterwards
+    try:
+        M5 = Model(species=sp + ["Y"], initialize_model=False, initial_condition_dict={s_: 1.0 for s_ in sp})
+        M5.create_rule("assignment", {"equation": "Y = " + text})
+        for q_ in par + ["_" + q for q in par if ("_" + q) in text.replace(" ", "")]:
+            M5.create_parameter(q_, 1.0)
+        routes["rule before parameters"] = (M5, ModelCSimInterface(M5))
+        C["rule_before_parameter_routes"] += 1
+    except Exception as e:
+        C["rule_before_parameters_refused"] += 1
     # the same text compiled again, in the same process, for a model that declares the same species in another order
     # (same names, same parameters): the formula's meaning does not depend on declaration order
     sp_r = list(reversed(sp)) if len(sp) > 1 else list(sp)
@@ -301,6 +314,17 @@ def run_case(case):
             st4 = x3.copy()
             itf3.py_apply_repeated_rules(st4, t, True)
             got["model with species declared as %s: assignment rule" % ",".join(sp_r)] = (st4[idx3["Y"]], e1)
+        if "rule before parameters" in routes:
+            M5, itf5 = routes["rule before parameters"]
+            idx5 = M5.get_species2index()
+            x5 = np.zeros(len(idx5))
+            for s_ in sp:
+                x5[idx5[s_]] = x[s_]
+            M5.set_params({q: p[q] for q in par})
+            M5.set_params({"_" + q: p[q] for q in par if ("_" + q) in M5.get_params2index()})
+            st5 = x5.copy()
+            itf5.py_apply_repeated_rules(st5, t, True)
+            got["assignment rule created before its parameters were declared"] = (st5[idx5["Y"]], e1)
         for route, (g, e) in got.items():
             C["accepted_evaluations"] += 1
             if not (math.isfinite(g) and close(g, e)):
